@@ -51,6 +51,8 @@ def scenarios(ctx):
                         if rng.random() < 0.25:
                             vg[s][ci][si] = rng.choice(["0/1", "0/0", "1/1"])
             w["vcf_gt"] = vg
+        if rng.random() < 0.4:
+            w["stale_lists"] = True      # the list paths hold an earlier run's lists
         w["opts"] = o
         scs.append({"world": w})
     # ---- nested phase sets with a forced recombination behind the inner set (quartets) ----
